@@ -75,4 +75,20 @@ PROPS = {
                       'Model validated against newBootstrapConfig, the requests of real managers and child processes.',
         'level_note': 'Trusted: Lean kernel; protojson; os.Getenv; the extractor; the correspondence harness.',
     },
+    'C10': {
+        'rule': 'random clusters (EDS / STATIC / LOGICAL_DNS, with and without EDS service name, with and without an inline assignment, cluster absent) and load assignments '
+                '(0-3 localities x 0-4 endpoints, empty localities, IPv4 / IPv6, ports 0/80/8888/65535, weights 0..2^20; named assignment present, absent or empty), built as protos, decoded by the '
+                'repo decoders and served to the real XDSResolver.Resolve / Target through a stub manager. Non-trivial: >= 2 endpoints returned, or an error path',
+        'assumptions': COMMON_ASSUME + [
+            'an inline assignment counts as present when it has at least one locality (the decoder stores nil otherwise)',
+            'discovery.NewInstance / utils.NewNetAddr / net.JoinHostPort are Kitex / standard library (trusted)',
+            'update histories of clusters and assignments are carried by C01 (the cache the lookups read)',
+        ],
+        'level_text': 'Theorems for every pair of lookup results and every name: Resolve succeeds with list `is` iff the cluster is fetched, `is` is the concatenation in order of the localities of '
+                      'the chosen assignment (inline if present, else the one named by the EDS service name, i.e. the cluster name when none is given) and `is` is non-empty (resolve_exact); hence no empty '
+                      'success; fetch errors propagate; an empty or absent assignment gives the no-endpoints error; the result is cacheable under the cluster name; Target is the routed-cluster tag. '
+                      'The emptiness check, the inline-first order, Cacheable/CacheKey and Target are re-read from resolver.go on every run (bridge facts_resolver). Model (with the CDS/EDS decoder model) validated '
+                      'against the real decoders + resolver.',
+        'level_note': 'Trusted: Lean kernel; Kitex discovery types; the extractor; the correspondence harness.',
+    },
 }
